@@ -6,7 +6,6 @@ import (
 
 	"github.com/paulsonkoly/chess-3/board"
 	. "github.com/paulsonkoly/chess-3/chess"
-	"github.com/paulsonkoly/chess-3/move"
 
 	"verifharness/hx"
 	"verifharness/posgen"
@@ -104,7 +103,7 @@ func runC09s(a hx.Args) string {
 		case op == opNull:
 			stack = append(stack, seqFrame{null: true, r: b.MakeNullMove()})
 		default:
-			m := move.Move(op)
+			m := hx.U2M(uint64(op))
 			stack = append(stack, seqFrame{m: m, r: b.MakeMove(m)})
 		}
 	}
@@ -195,7 +194,7 @@ func (w *c09sWalker) walk(b *board.Board, depth int) (childAskedStm bool) {
 			}
 			me := b.STM
 			r := b.MakeMove(m)
-			w.ops = append(w.ops, uint64(m))
+			w.ops = append(w.ops, hx.M2U(m))
 			if c09sFresh(b).InCheck(me) {
 				// pseudo-legal but illegal: a walker sees that the mover is in check and takes it back
 				w.tags["illegal-made-undone"] = true
